@@ -408,7 +408,16 @@ class MinFlowDecomp(pathmodel.AbstractPathModelDAG): # Note that we inherit from
     def _get_lowerbound_with_min_gen_set(self) -> int:
 
         min_gen_set_start_time = time.perf_counter()
-        all_weights = list(set({self.G.edges[e][self.flow_attr] for e in self.G.edges() if self.flow_attr in self.G.edges[e]}))
+        # Ignored edges need not be explained by the paths: they must not constrain the generating set.
+        # If an edge leaving a source node is ignored (or has no flow value), the sum of the path weights is not
+        # determined by the input, and this lower bound does not apply.
+        edges_to_ignore_set = set(self.edges_to_ignore)
+        for v in self.G.nodes():
+            if self.G.in_degree(v) == 0:
+                for _, w, data in self.G.out_edges(v, data=True):
+                    if (v, w) in edges_to_ignore_set or self.flow_attr not in data:
+                        return None
+        all_weights = list(set({self.G.edges[e][self.flow_attr] for e in self.G.edges() if self.flow_attr in self.G.edges[e] and e not in edges_to_ignore_set}))
         # Get the source_flow as the sum of the flow values on all the edges exiting the source nodes
         # (i.e., nodes with in-degree 0)
         source_flow = self._get_source_flow()
